@@ -197,3 +197,23 @@ Example C02_source_in_the_domain_and_rendered :
   evaluate_string cx0 (bs "<p>@if(a)x@elseif(b == 1){{ y }}@else z@end</p>"%string)
     [(bs "a", GBool false); (bs "b", GInt 1); (bs "y", GStr (bs "Y"))]%string = RenderOk (bs "<p>Y</p>"%string).
 Proof. split; vm_compute; reflexivity. Qed.
+
+(* ---- templates on any number of lines: line numbers only show in the line of an error
+   (Proofs/LineIrrelevance.v), so the chain holds without the demand that tokens stand on the first line *)
+From TW Require Import LineIrrelevance LinesPipeline.
+
+Theorem C02_from_source_bytes_to_output_any_lines its ss ns eof fs gd (data : list (bytes * value)) :
+  source_ok its = true -> place (spell its) 0 its = flats ss ++ [eof] -> wf_ss ss -> DensL ss ns ->
+  env_from_map gd = EnvOk [data] ->
+  forallb (fun kv : bytes * value => clean (snd kv)) data = true -> nodes_ok ns ->
+  lex_all (spell its) = Some (flats ss ++ [eof]) /\
+  parse_source (spell its) = ParsedOk (mkProgram (asts ss) None [] [] []) /\
+  exists K, (K <= eval_fuel)%nat ->
+    match run_nodes model_call_spec fs [data] ns with
+    | TOk out SigNormal _ => evaluate_string cx0 (spell its) gd = RenderOk out
+    | TOk _ _ _ => True
+    | TFail => exists ln msg, evaluate_string cx0 (spell its) gd = RenderErr ln msg
+    | TNoFuel | TUnprintable => True
+    end.
+Proof. exact (source_renders_lines its ss ns eof fs gd data). Qed.
+Print Assumptions C02_from_source_bytes_to_output_any_lines.
